@@ -28,14 +28,21 @@ func latin1(rng *rand.Rand, n int, high bool) string {
 // headerPattern builds a gzip header from a 5-bit presence pattern.
 func headerPattern(rng *rand.Rand, bits int, high bool) *GzHeader {
 	h := &GzHeader{OS: 255}
+	strLen := func(max int) int {
+		// mostly short; sometimes at the limit of the reader's 512-byte string buffer
+		if rng.Intn(4) == 0 {
+			return pick(rng, []int{509, 510, 511})
+		}
+		return 1 + rng.Intn(max)
+	}
 	if bits&1 != 0 {
-		h.Name = latin1(rng, 1+rng.Intn(40), high)
+		h.Name = latin1(rng, strLen(40), high)
 	}
 	if bits&2 != 0 {
-		h.Comment = latin1(rng, 1+rng.Intn(200), high)
+		h.Comment = latin1(rng, strLen(200), high)
 	}
 	if bits&4 != 0 {
-		n := pick(rng, []int{1, 2, 100, 65535})
+		n := pick(rng, []int{0, 1, 2, 100, 65535}) // 0: present but empty (what a reader reports for XLEN = 0)
 		h.Extra = make([]byte, n)
 		rng.Read(h.Extra)
 	}
@@ -294,6 +301,11 @@ func checkC08(c *Ctx) (int, error) {
 				e.Impl = "fastgo"
 			}
 			e.Hdr = &GzHeader{Name: fmt.Sprintf("member%d-%d", i, mi), OS: 255}
+			if (i+mi)%2 == 0 {
+				e.Hdr.Extra = []byte(fmt.Sprintf("extra field of member %d of file %d", mi, i))
+				e.Hdr.Comment = fmt.Sprintf("comment %d", mi)
+			}
+			e.Reuse = i%2 == 0 // members written by one Writer through Reset (the usual way to write multi-member files)
 			s.Enc = append(s.Enc, e)
 		}
 		switch f.Trailer {
